@@ -76,6 +76,24 @@ func c12Worlds() []c12World {
 		w.PckHdr = map[string][]string{world.HdrPckCrl: {world.IssuerChainHeader(proc, T.Root)}}
 		w.BuildGetter()
 		add("honest/processor-ca", w, raw)
+		// mixed chains: the leaf says one CA issued it, the chain carries the other CA's certificate. The quote is
+		// rejected either way; whatever is requested before that names the CA the LEAF says issued it
+		mixed := func(name, leafIssuer string, carried *x509.Certificate, issuerCert *x509.Certificate, issuerKey *world.Key) {
+			wm := world.Honest("T")
+			lf := world.MakeCert(world.CertSpec{CN: world.CNLeaf, Key: T.LeafKey, SGXExt: world.SGXExtension(wm.Plat)}, issuerCert, issuerKey)
+			pm := wm.Parts.Clone()
+			pm.Chain = world.PEM(lf, carried, T.Root)
+			rawm, _ := pm.Bytes()
+			wm.CA = leafIssuer
+			if leafIssuer == "processor" {
+				wm.PckCrl = world.MakeCRL(world.CRLSpec{Issuer: proc, Signer: pk})
+				wm.PckHdr = map[string][]string{world.HdrPckCrl: {world.IssuerChainHeader(proc, T.Root)}}
+				wm.BuildGetter()
+			}
+			add(name, wm, rawm)
+		}
+		mixed("fault/mixed-chain:leaf-issued-by-processor-ca,platform-ca-carried", "processor", T.Inter, proc, pk)
+		mixed("fault/mixed-chain:leaf-issued-by-platform-ca,processor-ca-carried", "platform", proc, T.Inter, T.InterKey)
 	}
 	base := func() *world.World { return world.Honest("T") }
 	{ // signature-chain faults
@@ -346,14 +364,19 @@ func c12Histories(r *mc.Run) {
 		return o
 	}
 	r.SerialOnly = true
-	for initKind := 0; initKind < 3; initKind++ {
+	for initKind := 0; initKind < 4; initKind++ {
 		initNil := initKind == 1
 		initPartial := initKind == 2
-		initName := []string{"Now=explicit", "Now=nil", "Now={PckCertChain-only}"}[initKind]
+		initDefault := initKind == 3 // the options value comes from verify.DefaultOptions() (its time set is taken when it is made)
+		initName := []string{"Now=explicit", "Now=nil", "Now={PckCertChain-only}", "verify.DefaultOptions()"}[initKind]
 		r.BFS("shared-options-histories/init:"+initName, depth, len(ops), func(hist []int) (string, bool) {
 			vsched.Reset()
 			nowPartial = initPartial
 			shared := fresh(0, initNil, world.T0, getter)
+			if initDefault {
+				shared = verify.DefaultOptions()
+				shared.Getter, shared.TrustedRoots = getter.Clone(), roots
+			}
 			nowNil := initNil
 			nowAt := world.T0
 			curRoots := roots
